@@ -54,6 +54,8 @@ impl TwoWorld {
                 for t in ["MODE {me} +i", "JOIN #p", "JOIN #q", "PART #p", "AWAY :a"] {
                     s.alphabet_for.push((0, t));
                 }
+                // the hidden user logs in to a predefined account (+r: WHOIS would say so)
+                s.cfg.users = vec![("uu".into(), "m1".into(), None, None)];
                 // the hidden user becomes an operator and resigns: +i is its own to remove, nothing else removes it
                 s.cfg.opers = vec![crate::spec::SpecOper { name: "op".into(), password: "oppw".into(), mask: None }];
                 for t in ["OPER op oppw", "MODE {me} -O"] {
